@@ -4,6 +4,7 @@
 From Coq Require Extraction.
 From Coq Require Import ExtrOcamlBasic.
 From Ebml Require Import Base Tools Spec Writer Reader Pure.
+From Ebml Require Import Derive.
 Extraction Language OCaml.
 Extraction "model.ml"
   Tools.as_vint Tools.as_vint_with_length Tools.read_vint Tools.is_vint
@@ -11,4 +12,5 @@ Extraction "model.ml"
   Tools.arr_to_u64 Tools.arr_to_i64 Tools.arr_to_f64 Tools.is_nan64 Tools.utf8_valid
   Spec.validate_tag_path Spec.path_matches Spec.count_ended
   Writer.run_writer
-  Reader.run_reader Reader.run_reader_cap Reader.run_async Pure.p_run.
+  Reader.run_reader Reader.run_reader_cap Reader.run_async Pure.p_run
+  Derive.derive Derive.derive_full Derive.get_impl Derive.gen_ctor Derive.gen_acc Derive.gen_get_id Derive.gen_enum.
